@@ -230,6 +230,9 @@ macro_rules! timed_runner {
           }
           h => panic!("bad timed op {h}"),
         };
+        // (drop) ends the subscription by dropping a guard from unsubscribe_when_dropped()
+        let use_guard = body[1].args().iter().any(|l| l.head() == "drop");
+        let mut guard = if use_guard { sub.take().map(|u| u.unsubscribe_when_dropped()) } else { None };
         let mut tasks: Vec<Option<SpawnedTask>> = vec![];
         let mut raw: Vec<Option<RawHandle>> = vec![];
         let collect = |tasks: &mut Vec<Option<SpawnedTask>>| {
@@ -263,6 +266,7 @@ macro_rules! timed_runner {
                 u.unsubscribe();
               }
             }
+            "drop" => drop(guard.take()),
             "closed" => {
               if let Some(u) = sub.as_ref() {
                 log.lock().unwrap().push(T::Ret(u.is_closed()));
@@ -314,6 +318,9 @@ macro_rules! timed_runner {
           collect(&mut tasks);
         }
         let r = show(&log.lock().unwrap());
+        if let Some(g) = guard.take() {
+          std::mem::forget(g);
+        }
         r
       }
     }
